@@ -275,10 +275,46 @@ func ruleR079(c *Ctx) {
 			}
 			nRet++
 			key := fmt.Sprintf("%s#success-implies-present[%d]", name, nRet)
-			if errIdx >= 0 && errIdx < len(r.Results) {
-				e := ast.Unparen(r.Results[errIdx])
+			// a bare return hands back the named results
+			results := r.Results
+			if len(results) == 0 && fd.Type.Results != nil {
+				for _, f := range fd.Type.Results.List {
+					for _, nm := range f.Names {
+						results = append(results, nm)
+					}
+				}
+			}
+			if errIdx >= 0 && errIdx < len(results) {
+				e := ast.Unparen(results[errIdx])
 				// a pending error: err under err != nil, or a freshly made error
 				if id, ok := e.(*ast.Ident); ok && id.Name != "nil" {
+					// err = e; return : the returned variable was just set from another one in the same block
+					alias := types.Object(nil)
+					if blk, ok := c.Parent(r).(*ast.BlockStmt); ok {
+						for _, st := range blk.List {
+							if st == ast.Stmt(r) {
+								break
+							}
+							if as, ok := st.(*ast.AssignStmt); ok && len(as.Lhs) == 1 && len(as.Rhs) == 1 {
+								if l, ok := as.Lhs[0].(*ast.Ident); ok && info.ObjectOf(l) == info.ObjectOf(id) {
+									alias = nil
+									if rid, ok := ast.Unparen(as.Rhs[0]).(*ast.Ident); ok && rid.Name != "nil" {
+										alias = info.ObjectOf(rid)
+									}
+								}
+							}
+						}
+					}
+					for _, gd := range g.Guards(r) {
+						if be, ok := ast.Unparen(gd.Cond).(*ast.BinaryExpr); ok && gd.Val && be.Op == token.NEQ && alias != nil {
+							if x, ok := ast.Unparen(be.X).(*ast.Ident); ok && info.ObjectOf(x) == alias {
+								if y, ok := ast.Unparen(be.Y).(*ast.Ident); ok && y.Name == "nil" {
+									c.OK(key, r.Pos(), "returns a pending error")
+									return true
+								}
+							}
+						}
+					}
 					for _, gd := range g.Guards(r) {
 						if be, ok := ast.Unparen(gd.Cond).(*ast.BinaryExpr); ok && gd.Val && be.Op == token.NEQ {
 							if x, ok := ast.Unparen(be.X).(*ast.Ident); ok && info.ObjectOf(x) == info.ObjectOf(id) {
@@ -303,8 +339,8 @@ func ruleR079(c *Ctx) {
 				return true
 			}
 			what := "nil"
-			if errIdx >= 0 && errIdx < len(r.Results) {
-				what = nodeStr(c.Fset, r.Results[errIdx])
+			if errIdx >= 0 && errIdx < len(results) {
+				what = nodeStr(c.Fset, results[errIdx])
 			}
 			lit := ""
 			for _, s2 := range mine {
